@@ -174,9 +174,14 @@ def input_fn(sl, val, x):
         xi = np.asarray(x).astype(np.int64)
         if sl.logits is None:
             pr = param(sl.probs, val)
-        else:
-            pr = 1.0 / (1.0 + np.exp(-param(sl.logits, val)))
-        return binom_pmf(xi[:, None], sl.total_count, pr[None, :])
+            return binom_pmf(xi[:, None], sl.total_count, pr[None, :])
+        # logits: p = sigmoid(l), 1 - p = sigmoid(-l), both computed without cancellation
+        lg = np.real(param(sl.logits, val))[None, :]
+        n = sl.total_count
+        xc = np.clip(xi, 0, n)[:, None]
+        logp = xc * (-np.logaddexp(0.0, -lg)) + (n - xc) * (-np.logaddexp(0.0, lg))
+        r = comb(n, xc) * np.exp(logp)
+        return np.where((xi[:, None] >= 0) & (xi[:, None] <= n), r, 0.0)
     if isinstance(sl, L.GaussianLayer):
         r = normal_pdf(np.asarray(x)[:, None], param(sl.mean, val)[None], param(sl.stddev, val)[None])
         if sl.log_partition is not None:
